@@ -148,6 +148,42 @@ def run(ctx):
     nt, nr = check_param_halves(ctx, db, rep, "D3-PARAM-HALVES")
     rep.extra["param_half_templates"] = nt
 
+    # ---- D2b: the two spellings of an index-dependent rule compute the same thing ----------------------
+    # Rules whose text depends on the element index exist twice: once for the emulator (index `offset + i`, a chunk at a
+    # time) and once for generated C (index `i`).  Apart from that substitution the two literals must be identical; otherwise
+    # generated C and emulation disagree while the regenerated emulator still matches the checked-in one.
+    ctu_ = db.tu("orcprogram-c")
+    npair = 0
+    for f in ctu_.main_functions():
+        if not f.name.startswith("c_rule_"):
+            continue
+        for iff in f.walk():
+            if iff.k != "IfStmt" or iff.c[0] is None or not any(x.k == "DeclRefExpr" and x.name == "ORC_TARGET_C_OPCODE" for x in iff.c[0].walk()):
+                continue
+            if len(iff.c) < 3 or iff.c[2] is None:
+                continue
+
+            def lits(node):
+                out = []
+                for c in node.walk():
+                    if c.k == "CallExpr" and c.name == "orc_compiler_append_code" and len(c.args()) > 1:
+                        l = strip_casts(c.args()[1])
+                        if l is not None and l.k == "StringLiteral":
+                            out.append(l.get("str", ""))
+                return out
+            a_, b_ = lits(iff.c[1]), lits(iff.c[2])
+            if not a_ or not b_ or not any("offset" in x for x in a_ + b_):
+                continue
+            emu_side, c_side = (a_, b_) if any("offset" in x for x in a_) else (b_, a_)
+            norm = [x.replace("(offset + i)", "i").replace("offset + i", "i") for x in emu_side]
+            npair += 1
+            rep.check(sorted(norm) == sorted(c_side), "D2-BRANCH-AGREE", where(f), "emulation-vs-C-literal",
+                      "the emulator spelling and the generated-C spelling differ only by offset + i -> i",
+                      "%s emits different computations for the emulator and for generated C: `%s` vs `%s`" %
+                      (f.name, [x.strip()[:110] for x in norm], [x.strip()[:110] for x in c_side]), line=iff.line)
+    if npair < 6:
+        raise AnalysisBroken("only %d emulator/C literal pairs found in orcprogram-c.c" % npair)
+
     # ---- D4: constant operands are spelled as the values they are ---------------------------------
     from ctemplates import check_constant_spelling
     rep.extra["constant_spelling_cases"] = check_constant_spelling(ctx, db, rep, "D4-CONST-SPELLING")
